@@ -4,7 +4,8 @@
 //   - layouts: every sequence of up to 3 add() calls (thorough: also every multiset of 4, ascending and descending) of blocks
 //     whose bounds lie on a 6-point grid scaled by 2 (0,2,..,10) at resolutions {raw,5m,1h};
 //   - histories: every sequence of add() and remove() calls with at least one remove (bounded number of adds and removes, a
-//     remove names any block added before it, present or already removed) over the 5-point grid (0,2,..,8) x {raw,5m,1h}.
+//     remove names any block added before it, present or already removed) over the 4-point grid (0,2,4,6; thorough 0,..,8) x
+//     {raw,5m,1h}.
 //
 // After the last operation getFor is called for every query range with integer bounds one below .. one above the grid (so
 // that bounds fall before, on, strictly inside and after blocks) x every maximum resolution around the two comparison
@@ -48,10 +49,9 @@ var resMillis = []int64{0, 300000, 3600000}
 var maxResAlphabet = []int64{0, 299999, 300000, 3599999, 3600000, math.MaxInt64}
 
 const (
-	gridPoints     = 6 // layout family
-	histGridPoints = 5 // history family
-	scale          = 2
-	qLo            = -1
+	gridPoints = 6 // layout family; the history family uses the first 4 (thorough 5) points
+	scale      = 2
+	qLo        = -1
 )
 
 func qHiFor(points int) int { return (points-1)*scale + 1 }
@@ -133,10 +133,11 @@ func genLayouts(r *vlib.R, n int, yield func(Case) bool) bool {
 }
 
 // genHistories yields skeleton x every assignment of block types to the nAdds added blocks.
-func genHistories(types []B, nAdds, maxRm int, yield func(Case) bool) bool {
+func genHistories(points, nAdds, maxRm int, yield func(Case) bool) bool {
+	types := blockTypes(points, 3)
 	for _, sk := range skeletons(nAdds, maxRm) {
 		for tu := range vlib.Tuples(nAdds, len(types)) {
-			c := Case{Blocks: make([]B, nAdds), Ops: sk, QHi: qHiFor(histGridPoints)}
+			c := Case{Blocks: make([]B, nAdds), Ops: sk, QHi: qHiFor(points)}
 			for i, ty := range tu {
 				c.Blocks[i] = types[ty]
 			}
@@ -149,11 +150,12 @@ func genHistories(types []B, nAdds, maxRm int, yield func(Case) bool) bool {
 }
 
 type bounds struct {
-	maxBlocks            int // layout family
-	histAdds, histRm     int // history family, 3 resolutions: <= histAdds adds with <= histRm removes
-	histAdds2, histRm2   int // history family, 3 resolutions: fewer adds, more removes
-	deepAdds, deepRm     int // history family, resolutions {raw,5m} only (0 = off)
-	histTypes, deepTypes []B
+	maxBlocks          int // layout family
+	histPoints         int // history family: grid points
+	histAdds, histRm   int // history family: <= histAdds adds with <= histRm removes
+	histAdds2, histRm2 int // history family: fewer adds, more removes
+	deepPoints         int // history family, exactly deepAdds adds (0 = off) with <= deepRm removes on a smaller grid
+	deepAdds, deepRm   int
 }
 
 func gen(r *vlib.R, bd bounds) iter.Seq[Case] {
@@ -174,11 +176,11 @@ func gen(r *vlib.R, bd bounds) iter.Seq[Case] {
 				rm = max(rm, bd.histRm2)
 			}
 			if rm > 0 {
-				if !genHistories(bd.histTypes, n, rm, yield) {
+				if !genHistories(bd.histPoints, n, rm, yield) {
 					return
 				}
-			} else if n <= bd.deepAdds {
-				if !genHistories(bd.deepTypes, n, bd.deepRm, yield) {
+			} else if n == bd.deepAdds {
+				if !genHistories(bd.deepPoints, n, bd.deepRm, yield) {
 					return
 				}
 			}
@@ -428,20 +430,20 @@ func TestCheck(t *testing.T) {
 	r := vlib.New(t, "C15")
 	defer r.Finish()
 	bd := bounds{
-		maxBlocks: vlib.Pick(r, 3, 4),
-		histAdds:  3, histRm: vlib.Pick(r, 1, 2),
+		maxBlocks:  vlib.Pick(r, 3, 4),
+		histPoints: vlib.Pick(r, 4, 5),
+		histAdds:   3, histRm: vlib.Pick(r, 1, 2),
 		histAdds2: 2, histRm2: 2,
-		deepAdds: vlib.Pick(r, 0, 4), deepRm: 1,
-		histTypes: blockTypes(histGridPoints, 3),
-		deepTypes: blockTypes(histGridPoints, 2),
+		deepPoints: 4, deepAdds: vlib.Pick(r, 0, 4), deepRm: 1,
 	}
+	hp := bd.histPoints
 	r.Rule(fmt.Sprintf("layouts = sequences of <= 3 add() of blocks over 15 intervals [2a,2b) (0<=a<b<=5) x {raw,5m,1h} (4 blocks: every multiset, ascending and descending); "+
-		"histories = every sequence of add()/remove() with >= 1 remove, a remove naming any earlier added block (present or already removed), over 10 intervals "+
-		"[2a,2b) (0<=a<b<=4) x {raw,5m,1h}: <= %d adds with <= %d removes, <= %d adds with <= %d removes; <= %d adds with %d remove over x {raw,5m} (0 = off); "+
-		"after the last operation all query ranges with integer bounds -1..11 (histories -1..9) x 6 maximum resolutions; non-trivial layout = some query returned blocks of "+
-		"at least two resolutions (gap filling happened); non-trivial history = some remove took out a block with a later block of its resolution behind it and some "+
-		"query afterwards returned blocks; extra: getFor calls, calls with gap filling, history counters",
-		bd.histAdds, bd.histRm, bd.histAdds2, bd.histRm2, bd.deepAdds, bd.deepRm))
+		"histories = every sequence of add()/remove() with >= 1 remove, a remove naming any earlier added block (present or already removed), over the %d intervals "+
+		"[2a,2b) (0<=a<b<=%d) x {raw,5m,1h}: <= %d adds with <= %d removes and <= %d adds with <= %d removes; exactly %d adds (0 = off) with %d remove over the 6 intervals "+
+		"with 0<=a<b<=3; after the last operation all query ranges with integer bounds -1..11 (histories: -1..one above their grid) x 6 maximum resolutions; non-trivial "+
+		"layout = some query returned blocks of at least two resolutions (gap filling happened); non-trivial history = some remove took out a block with a later block of "+
+		"its resolution behind it and some query afterwards returned blocks; extra: getFor calls, calls with gap filling, history counters",
+		hp*(hp-1)/2, hp-1, bd.histAdds, bd.histRm, bd.histAdds2, bd.histRm2, bd.deepAdds, bd.deepRm))
 	r.Assume("No block-level matchers (hints) are passed; all blocks carry the set's (empty) external labels.",
 		"Instants are integer milliseconds; block intervals are half-open [min,max), query ranges closed [mint,maxt] as in the code's comments.",
 		"Operations on one set are sequential (add/remove/getFor are serialised by the set's mutex); every block has its own ULID.")
